@@ -538,6 +538,15 @@ def module_cases(ctx, files, main, label, dm, graph_cases, order_cases):
         return
     except Exception as ex:
         ctx.count("early-crash:" + type(ex).__name__)
+        # a crash BEFORE the dependency pass must not hide what the user sees: a pass that follows references
+        # (aliases, member accesses) and runs ahead of cycle detection does not terminate on a cyclic module
+        o = full_compile(files, main)
+        if o[0] == "recursion":
+            ctx.violation("recursion-error:" + o[1][1], "compilation of %s ends in RecursionError in %s (before the dependency pass ran)"
+                          % (label, o[1][1]), dict(kind="modules", files=files, main=main, outcome=outcome_text(o)), found_input=True)
+        elif o[0] == "timeout":
+            ctx.violation("compile-timeout", "compilation of %s did not finish within %ds" % (label, COMPILE_LIMIT_S),
+                          dict(kind="modules", files=files, main=main), found_input=True)
         return
     if errs:
         ctx.count("rejected-before-dependency-pass")
@@ -635,7 +644,9 @@ def module_cases(ctx, files, main, label, dm, graph_cases, order_cases):
     # ordering of every structure of the accepted (as far as this pass is concerned) module
     with OrderCapture() as cap:
         try:
-            ir2, dbg, errs2 = _with_limit(COMPILE_LIMIT_S, lambda: compile_files(files, main, stop="resolve_field_references"))
+            # the whole pipeline (not "up to the pass after set_dependency_order"): the capture must not depend on
+            # the position of the pass in glue.process_ir
+            ir2, dbg, errs2 = _with_limit(COMPILE_LIMIT_S, lambda: compile_files(files, main, stop=None))
         except _Alarm:
             ctx.violation("compile-timeout", "set_dependency_order did not finish on %s" % label,
                           dict(kind="modules", files=files, main=main), found_input=True)
@@ -738,6 +749,32 @@ def run_item(ctx, item, label, graph_cases, order_cases):
         add_ordering_case(ctx, names, deps, params, "corpus", order_cases)
     else:
         ctx.note("item %s of unknown kind %r ignored" % (label, item.get("kind")))
+
+
+# Seed-independent family: cycles (and acyclic controls) that run through MEMBER ACCESSES on virtual alias fields.
+# A pass that follows aliases (symbol_resolver.resolve_field_references) only terminates on them because cycle
+# detection has rejected the module before it runs.
+_ALIAS_HEAD = ('[$default byte_order: "LittleEndian"]\nstruct Pair:\n  0 [+1]  UInt  x\n  1 [+1]  UInt  y\n'
+               "struct Box:\n  0 [+2]  Pair  p\n  2 [+2]  Pair  q\n")
+ALIAS_MEMBER_FAMILY = [
+    ("mutual-member", "struct Top:\n  0 [+4]  Box  body\n  let head = tail.x\n  let tail = head.y\n"),
+    ("self-member", "struct Top:\n  0 [+4]  Box  body\n  let a = a.x\n"),
+    ("member-then-plain-aliases", "struct Top:\n  0 [+4]  Box  body\n  let a = b.x\n  let b = c\n  let c = a\n"),
+    ("two-level-member", "struct Top:\n  0 [+4]  Box  body\n  let a = b.p.x\n  let b = c\n  let c = a\n"),
+    ("member-in-condition", "struct Top:\n  0 [+4]  Box  body\n  let a = b.p\n  if a.x == 1:\n    let b = a\n"),
+    ("member-in-location", "struct Top:\n  0 [+4]  Box  body\n  let a = b\n  a.p.x [+4]  Box  b\n"),
+    ("three-struct-aliases", "struct Top:\n  0 [+4]  Box  body\n  let a = c.p\n  let b = a\n  let c = b\n"),
+    # acyclic controls: the same shapes with the back edge removed
+    ("ok:alias-then-member", "struct Top:\n  0 [+4]  Box  body\n  let a = body\n  let b = a.p\n  let c = b.x\n  let d = a.q.y + c\n"),
+    ("ok:member-chain-reversed", "struct Top:\n  let d = c.x\n  let c = b.p\n  let b = a\n  let a = body\n  0 [+4]  Box  body\n"),
+    ("ok:member-in-location", "struct Top:\n  0 [+4]  Box  body\n  let a = body\n  a.p.x [+4]  Box  b\n  let e = b.q\n  let f = e.y\n"),
+]
+
+
+def alias_member_family(ctx, graph_cases, order_cases):
+    for name, body in ALIAS_MEMBER_FAMILY:
+        module_cases(ctx, {"m.emb": _ALIAS_HEAD + body}, "m.emb", "alias-member:" + name, None, graph_cases, order_cases)
+        ctx.count("alias-member-family")
 
 
 CONST_ARG_PROBE = ('[$default byte_order: "LittleEndian"]\n'
@@ -879,6 +916,7 @@ def run(ctx):
     if not replaying:
         deep_chain_probe(ctx)
         const_arg_probe(ctx)
+        alias_member_family(ctx, graph_cases, order_cases)
     phase("deep-chain-probe")
     # model side
     # both batches are evaluated by Coq concurrently (each is itself sharded over processes)
